@@ -52,6 +52,10 @@ type mstate struct {
 		Val  []mrec `json:"val"`
 		Parm []mrec `json:"parm"`
 	} `json:"st"`
+	PR struct {
+		Bs int `json:"bs"`
+		St int `json:"st"`
+	} `json:"pr"`
 	Mem struct {
 		Up   bool   `json:"up"`
 		Pc   string `json:"pc"`
